@@ -164,7 +164,9 @@ def run(facts, res):
 
 
 def _from_param(t, name):
-    return any(x[0] == "param" and x[2] == name for x in walk(t))
+    # resolve_as(&self, uuid, winner): the chosen revision is parameter 3
+    idx = {"winner": 3, "uuid": 2}[name]
+    return any(x[0] == "param" and x[1] == idx for x in walk(t))
 
 
 def thorough(res):
